@@ -440,6 +440,19 @@ fn one_case(mech: &str, sig: i32, run_as: Option<u32>) -> String {
             return format!("case {} {} nraw=0 niter=0 setup=setuid-failed", mech, sig);
         }
     }
+    // for every second signal number a foreign handler is in place before the library takes the signal over: a plain
+    // one-argument handler that asked for the alternate stack (what CPython's faulthandler installs); what Origin
+    // reports may not depend on it
+    if sig % 2 == 0 {
+        extern "C" fn plain(_s: libc::c_int) {}
+        unsafe {
+            let mut act: libc::sigaction = std::mem::zeroed();
+            act.sa_sigaction = plain as usize;
+            act.sa_flags = libc::SA_ONSTACK;
+            libc::sigemptyset(&mut act.sa_mask);
+            libc::sigaction(sig, &act, std::ptr::null_mut());
+        }
+    }
     let signals = match SignalsInfo::<WithOrigin>::new(&[sig]) {
         Ok(s) => s,
         Err(e) => return format!("case {} {} nraw=0 niter=0 setup=register-failed:{:?}", mech, sig, e.kind()),
